@@ -243,8 +243,8 @@ theorem start_px (s0 : Sys) (hw : WFConfig s0) : PX s0.start := by
   · intro t r a h1; rw [hnone] at h1; exact absurd h1 (by simp)
 
 theorem px_step {s : Sys} (hs : SInv s) (hwi : WInv s) (hbf : BufI s) (hst : STInv s) (hpr : PRInv s)
-    (h : PXInv s) (hno : s.alg ≠ .oracle) {pid : Nat} (hen : s.enabled pid) (orc : Oracle)
-    (hord : pollAfterSched s pid) : PXInv (s.resume pid orc).1 := by
+    (h : PXInv s) (hno : s.alg ≠ .oracle) {pid : Nat} (hen : s.enabled pid) (orc : Oracle) :
+    PXInv (s.resume pid orc).1 := by
   intro hc
   obtain ⟨p, hp, ha, hmin⟩ := hen
   obtain ⟨hc0, hnr⟩ := resume_nocrash s pid orc p hp ha hc
@@ -255,7 +255,7 @@ theorem px_step {s : Sys} (hs : SInv s) (hwi : WInv s) (hbf : BufI s) (hst : STI
   refine PX.core ?_ (resume_core s p.pid orc p hp ha)
   by_cases h2 : p.k.tag = "allocTask"
   · cases hk : p.k with
-    | allocTask t m preds obs ing ret => exact px_allocTask hpx hprs hs (hwi hc0) hpm ha hmin orc hk hnr hord
+    | allocTask t m preds obs ing ret => exact px_allocTask hpx hprs hs (hwi hc0) hpm ha hmin orc hk hnr
     | _ => rw [hk] at h2; simp [PK.tag] at h2
   · by_cases h3 : p.k.tag = "doWork"
     · cases hk : p.k with
@@ -269,24 +269,26 @@ theorem px_step {s : Sys} (hs : SInv s) (hwi : WInv s) (hbf : BufI s) (hst : STI
 
 theorem ReachSchedFirst.toReach {s0 s : Sys} (h : ReachSchedFirst s0 s) : Reach s0 s := h.toOk.toReach
 
+-- F13: `PX` along EVERY run (`Reach`: any order of the blocks inside an instant); before the repair
+-- only along `ReachSchedFirst` (every step satisfying `pollAfterSched`)
 theorem reach_px (s0 s : Sys) (hw : WFConfig s0) (hbuf : bufList s0.buf = []) (hno : s0.alg ≠ .oracle)
-    (h : ReachSchedFirst s0 s) : PXInv s := by
+    (h : Reach s0 s) : PXInv s := by
   induction h with
   | start => exact fun _ => start_px s0 hw
-  | step s pid orc hr hen _ hord ih =>
-    have hok := hr.toOk
-    have hre := hr.toReach
+  | step s pid orc hr hen ih =>
+    have hok := hr.toOk hno
     exact px_step (reach_inv s0 s hw hok) (reachOk_wi s0 s hw hbuf hok) (reachOk_bufi s0 s hw hbuf hok)
-      (reach_st s0 s hw hbuf hno hre) (reach_pr s0 s hw hbuf hno hre) ih
-      (by rw [reach_alg hre]; exact hno) hen orc hord
+      (reach_st s0 s hw hbuf hno hr) (reach_pr s0 s hw hbuf hno hr) ih
+      (by rw [reach_alg hr]; exact hno) hen orc
 
-/-- the exact form, in the restricted order -/
+/-- the exact form, for every order of the blocks inside an instant -/
+-- F13: hypothesis `ReachSchedFirst s0 s` weakened to `Reach s0 s`
 theorem reach_precedence_exact (s0 s : Sys) (hw : WFConfig s0) (hbuf : bufList s0.buf = [])
-    (hno : s0.alg ≠ .oracle) (h : ReachSchedFirst s0 s) (hc : s.crashed = none) :
+    (hno : s0.alg ≠ .oracle) (h : Reach s0 s) (hc : s.crashed = none) :
     ∀ pl ∈ s.plans, ∀ q t, (q, t) ∈ pl.edges → ∀ r a, s.task? t = some r → r.ast = some a →
       s.cl.isTaskFinished q = true ∧
       ∃ rq f, s.task? q = some rq ∧ rq.status = .finished ∧ rq.aft = some f ∧ f ≤ a := by
-  have hre := h.toReach
+  have hre := h
   have hst := reach_st s0 s hw hbuf hno hre hc
   have hpx := reach_px s0 s hw hbuf hno h hc
   intro pl hpl q t he r a hr hast
